@@ -848,6 +848,25 @@ fn judge_ok(
                         (Some(ps), Some(qs)) => {
                             let mut added: Vec<&String> = qs.difference(&ps).collect();
                             let mut removed: Vec<&String> = ps.difference(&qs).collect();
+                            {
+                                // a direction the request did not ask for on this attribute is a plugin's doing
+                                // (e.g. the gid plugin regenerating a purged gidnumber)
+                                let ms: Vec<&ModSpec> = match &p.op {
+                                    Op::Modify { mods, .. } => mods.iter().filter(|m| &m.attr == a).collect(),
+                                    Op::Batch { mods } => mods.iter().filter(|(bu, _)| bu == u).flat_map(|(_, ms)| ms.iter()).filter(|m| &m.attr == a).collect(),
+                                    _ => vec![],
+                                };
+                                let asks_add = ms.iter().any(|m| m.kind == "present" || m.kind == "set");
+                                let asks_rem = ms.iter().any(|m| m.kind == "removed" || m.kind == "purged" || m.kind == "set");
+                                if !asks_add && !added.is_empty() {
+                                    added.clear();
+                                    acc.count("modify.value_changes_by_plugins(not judged)");
+                                }
+                                if !asks_rem && !removed.is_empty() {
+                                    removed.clear();
+                                    acc.count("modify.value_changes_by_plugins(not judged)");
+                                }
+                            }
                             if a == "class" {
                                 // only the class changes the request asked for are the user's doing
                                 let (radd, rrem, wipe) = cls_req.get(&Some(*u)).or_else(|| cls_req.get(&None)).cloned().unwrap_or_default();
@@ -1007,13 +1026,22 @@ pub fn run(args: Args) {
     run.assume("protected classes are restated from access/protected.rs: system, domain_info, system_info, system_config, dyngroup, sync_object, tombstone, recycled");
     let seed = args.seed;
     let tier = args.tier;
-    let configs_per_worker = tier.pick(4usize, 140usize);
+    let configs_per_worker = tier.pick(4usize, 100usize);
     let ops_per_config = tier.pick(70u64, 120u64);
-    run.parallel(args.workers, |w, _n| {
+    // --replay <file>: re-run exactly the configuration of the witness (its config_seed)
+    let replay_seed: Option<u64> = args
+        .replay
+        .as_ref()
+        .and_then(|p| kvcore::run::load_replay(p))
+        .and_then(|w| w.get("config_seed").and_then(|v| v.as_u64()));
+    if args.replay.is_some() && replay_seed.is_none() {
+        run.require(false, "the replay file carries no config_seed");
+    }
+    run.parallel(if replay_seed.is_some() { 1 } else { args.workers }, |w, _n| {
         let mut acc = Acc::new();
         let rt = kvcore::srv::rt();
-        for c in 0..configs_per_worker {
-            let cseed = mix(seed, w as u64, 2400 + c as u64);
+        for c in 0..(if replay_seed.is_some() { 1 } else { configs_per_worker }) {
+            let cseed = replay_seed.unwrap_or_else(|| mix(seed, w as u64, 2400 + c as u64));
             let mut rng = Rng::new(cseed);
             let mut sv = rt.block_on(Server::new());
             let n_acps = 1 + rng.below(6) as usize;
